@@ -2216,3 +2216,58 @@ func c14jsonStrings(c *core.Check) {
 		"strings reach the JSON text through encoding/json only",
 		fmt.Sprintf("JSON text is built with Go quoting (%v): a key containing a control character or other byte that Go escapes as \\\\x.., \\\\a, \\\\v is written as invalid JSON, so the marshalled mask cannot be read back", bad))
 }
+
+// ---------------------------------------------------------------------------------------------------------------------
+// C17: "a double may be re-read as an integer literal of equal value" — but an integer literal has to fit 64 bits. Rule: the
+// branch of printConstTypedValue that prints a double does not rely on the fixed-point format alone: some FormatFloat in
+// it uses an exponent format (or the text is given a fraction).
+func c17doubleReparsable(c *core.Check) {
+	rel := "tool/trimmer/dump"
+	fd := c.Prog.FuncDecl(rel, "printConstTypedValue")
+	key := rel + ".printConstTypedValue/double"
+	if fd == nil {
+		c.Unknown("anchor", key, "", "missing")
+		return
+	}
+	info := c.Prog.Pkg(rel).TypesInfo
+	var branch *ast.IfStmt
+	ast.Inspect(fd.Body, func(n ast.Node) bool {
+		if is, ok := n.(*ast.IfStmt); ok && branch == nil && strings.Contains(rules.ExprString(is.Cond), ".Double") {
+			branch = is
+		}
+		return true
+	})
+	if branch == nil {
+		c.Unknown("double-literal-reparsable", key, c.Prog.Rel(fd.Pos()), "no branch for double constants")
+		return
+	}
+	formats := map[string]bool{}
+	fraction := false
+	for _, call := range rules.Calls(branch.Body, true) {
+		fn := rules.Callee(info, call)
+		if fn != nil && fn.Pkg() != nil && fn.Pkg().Path() == "strconv" && fn.Name() == "FormatFloat" && len(call.Args) == 4 {
+			if v, ok := rules.ConstInt(info, call.Args[1]); ok {
+				formats[string(rune(v))] = true
+			}
+		}
+	}
+	ast.Inspect(branch.Body, func(n ast.Node) bool {
+		if bl, ok := n.(*ast.BasicLit); ok && bl.Value == `".0"` {
+			fraction = true
+		}
+		return true
+	})
+	okf := formats["e"] || formats["E"] || formats["g"] || formats["G"] || fraction
+	c.Decide(okf && len(formats) > 0, "double-literal-reparsable", key, c.Prog.Rel(branch.Pos()),
+		fmt.Sprintf("formats %v: a value that does not fit an integer literal is printed with an exponent (or a fraction)", keysOfBool(formats)),
+		fmt.Sprintf("doubles are printed with format %v only: a value without a fraction beyond the int64 range (const double X = 1e21) is dumped as a 22-digit integer literal that the parser rejects (value out of range)", keysOfBool(formats)))
+}
+
+func keysOfBool(m map[string]bool) []string {
+	var ks []string
+	for k := range m {
+		ks = append(ks, k)
+	}
+	sort.Strings(ks)
+	return ks
+}
